@@ -11,7 +11,7 @@ import treeutil as tu
 from props import c01
 
 ID = "C04"
-GEN_DEPENDS = ["PyBits"]
+GEN_DEPENDS = ["PyBits", "C04Kernels"]
 RULE = ("pairs and triples of random trees (1-10 leaves quick, 25 thorough) over one namespace (extra members, holes), one rooting "
         "state per case (rooted / unrooted / unset), dyadic / None / zero edge lengths, unary nodes and polytomies; re-drawn copies "
         "(children shuffled, unifurcations inserted with the length split, unrooted trees re-seeded through an independent graph "
@@ -19,22 +19,38 @@ RULE = ("pairs and triples of random trees (1-10 leaves quick, 25 thorough) over
         "calls of all five public functions with default arguments and with is_bipartitions_updated=True; trees over a second, "
         "equal-looking namespace object; namespace histories (members - mostly not the newest - removed with remove_taxon / "
         "remove_taxon_label / del, then new ones added with new_taxon / require_taxon / add_taxon / by reading Newick) before two "
-        "trees are built over the result, judged on leaf-label sets. Non-trivial = the two trees differ in at least one split")
+        "trees are built over the result, judged on leaf-label sets; every pair also through the aliases, the deprecated Tree methods, "
+        "edge_weight_attr naming another edge attribute (lengths moved there, `length` left with the complementary None pattern) and "
+        "value_type=Fraction; per pair the library's per-split (length1, length2) dictionary (_get_length_diffs(..., "
+        "bipartition_length_diff_map=True)) is compared with the model's, and the returned Euclidean float with the model's 60-bit "
+        "fixed-point bracket of the real square root. Non-trivial = the two trees differ in at least one split")
 MODELLED_NOT_VERIFIED = [
-    "C04: the Lean model (Model/C04.lean on top of C01.encode) is hand-written from false_positives_and_negatives / _get_length_diffs; "
-    "tied by comparing fp, fn, wRF, Euclid^2 and the missing-bipartition set per generated pair",
-    "C04: sqrt (the model and the theorems work with the squared Euclidean distance; Minkowski's inequality is stated on square roots in ℝ), "
-    "binary64 rounding (exact comparison on dyadic lengths only), TreeShapeKernel classes",
-    "C04: Model/C04State.lean (tree objects with a stored encoding, the is_bipartitions_updated switch, namespace identity) is hand-written; "
-    "tied by comparing the unweighted functions in every history step (default and is_bipartitions_updated=True calls, stale answers included) "
-    "and the namespace refusal; the weighted functions with is_bipartitions_updated=True (lazily built split->edge map) are not modelled",
+    "C04: the Lean model (Model/C04.lean on top of C01.encode) is hand-written from false_positives_and_negatives / _get_length_diffs; its "
+    "closed-form kernels (set-difference orientation, symmetric_difference arithmetic, find_missing_bipartitions filter, the two dist_fn "
+    "lambdas, the 32+4-row decision tables of the two loops of _get_length_diffs, the re-encoding protocol, the namespace check, the "
+    "delegating aliases) are regenerated from the source on every run (Gen/C04Kernels.lean) and proved equal to the model's (gen_* "
+    "theorems); what stays hand-written: the iteration structure around those kernels (dict insertion order, later-edge-wins in "
+    "bipartition_edge_map, pop of shared keys), tied by comparing fp, fn, wRF, Euclid^2, the root bracket, the per-split dictionary and "
+    "the missing-bipartition set per generated pair",
+    "C04: math.sqrt is modelled by its exact fixed-point floor (Model/C04Root.lean rootFix; rootFix_bracket / euclid_bracket: the printed "
+    "integer brackets the real root) and the metric theorems are stated on the real root (euclid_*); binary64 rounding is not modelled "
+    "(exact comparison on dyadic lengths only; the root is compared up to relative 2^-44), TreeShapeKernel classes",
+    "C04: Model/C04State.lean (tree objects with a stored encoding, the is_bipartitions_updated switch, namespace identity) is hand-written "
+    "(its prepare / refusal decisions are bridged to the generated prep_* / nsRefuses_* tables); tied by comparing the unweighted functions "
+    "in every history step (default and is_bipartitions_updated=True calls, stale answers included) and the namespace refusal; the weighted "
+    "functions with is_bipartitions_updated=True (lazily built split->edge map) are not modelled",
 ]
 EXPLANATION = ("Theorems about the definitions the driver runs. Definitions: fp/fn/RF are the cardinalities of the one-sided and symmetric "
                "differences of the split sets; wRF / Euclid^2 are the L1 / squared L2 norm of the split->length functions, and "
                "lenAt_eq_split_sum(_rooted): that function is the total length of the edges of the tree AS DRAWN inducing the split "
-               "(unifurcation suppression adds lengths; rooted: rooted_splits_nodup shows no edge is lost). Metric: symmetric (value and "
-               "definedness), zero on equal inputs and only between equal split->length functions, triangle (Euclid: Minkowski on roots; "
-               "euclidSq_nonneg: the square is >= 0 and its root is 0 iff it is - the root itself is not modelled). Representation, "
+               "(unifurcation suppression adds lengths; rooted: rooted_splits_nodup shows no edge is lost). lengthDiffsK_spec: the "
+               "per-split dictionary of _get_length_diffs has one entry per split of either tree, (length in tree 1, length in tree 2). "
+               "Metric: symmetric (value and definedness), zero on equal inputs and only between equal split->length functions, "
+               "triangle. The square root: Aux.euclid is the real square root of the exact sum of squares (gen_euclid: the source puts "
+               "math.sqrt around that sum); euclid_eq_l2, euclid_symm, euclid_zero_iff / euclid_self, euclid_root_triangle (Minkowski), "
+               "euclid_congr, euclid_redraw_rooted / euclid_redraw_unrooted state the metric and representation clauses on the distance "
+               "itself; rootFix_bracket / euclid_bracket: the integer the driver prints is the floor of 2^60 times that root (isqrt proved "
+               "correct), which is what the library's float is compared with. Representation, "
                "unweighted: rf_zero_iff_topology (rooted) and rf_zero_iff_unrooted_topology (not rooted, >= 3 taxa, any seed position / "
                "child order / bifurcating seed): RF = 0 iff same topology; fpfn_redraw_rooted / fpfn_redraw_unrooted: a re-drawing changes "
                "no unweighted distance against a third tree. Representation, weighted: dist_child_order_rooted, dist_redraw_rooted "
@@ -44,10 +60,18 @@ EXPLANATION = ("Theorems about the definitions the driver runs. Definitions: fp/
                "(any sequence of child reorderings, unifurcation insertions and seed moves - URedraw - changes no weighted value; end "
                "drawings: seed not bifurcating as drawn, >= 3 children after suppression), dist_child_order_unrooted, dist_seed_move; "
                "reseed_one_edge_is_invertT ties the seed-move step to C07's model of reseed_at (one edge; deeper targets = iteration, "
-               "not restated). Still excluded for the weighted distances: an end drawing whose seed is bifurcating AS DRAWN (the "
-               "collapse case). dist_child_order_partial / dist_seed_move_partial are kept, superseded. "
+               "not restated). The collapse case is closed: collapse_inv (collapse_basal_bifurcation keeps the per-split table and the "
+               "split set of the drawing: the dissolved edge and the one absorbing its length induce the same split), "
+               "lenAt_eq_usum_any_seed, dist_redraw_unrooted_any_seed / euclid_redraw_unrooted_any_seed: ANY two drawings related by "
+               "URedraw, bifurcating seeds as drawn included, provided the seed has >= 3 children after encoding (the complement is "
+               "exactly the known finding basal-bifurcation-survives-encoding, where the claim is false of the code). "
+               "dist_child_order_partial / dist_seed_move_partial are kept, superseded. "
                "fpfn_seed_path / rf_zero_seed_move_partial speak about paths between the ENCODED forms and are superseded by "
-               "rf_zero_iff_unrooted_topology. Histories (Model/C04State.lean; the driver's `hist` and `sdist` ops execute run / step / "
+               "rf_zero_iff_unrooted_topology. Tie A (gen_rf, gen_fpfn, gen_missing, gen_wrf, gen_euclid, gen_entry, gen_pass2, "
+               "gen_prepare, gen_namespace, gen_aliases): the kernels regenerated from treecompare.py / _tree.py on every run are the "
+               "model's; a semantic edit of the source breaks one of them, a harmless rewrite (a - b for a.difference(b), x*x for pow(x,2), "
+               "nested ifs for `and`, a symmetric alias with its trees swapped) does not. Histories (Model/C04State.lean; the driver's "
+               "`hist` and `sdist` ops execute run / step / "
                "weightedCall / fpfnCall / missingCall on every generated history and the harness compares every answer): "
                "history_default_call_is_fresh, default_call_ignores_stored_encoding, updated_call_uses_stored_encoding, namespace_refusal "
                "are bookkeeping over that model (true by construction of `step`); that the library behaves like the model rests on the "
@@ -340,6 +364,42 @@ def measure(ctx, dendropy, t1, t2, case):
     return out
 
 
+ROOT_BITS = 60      # Model/C04Root.lean: rootBits
+
+
+def length_diff_map(dendropy, t1, t2):
+    """the library's own intermediate result: the per-bipartition (length1, length2) dictionary of
+    `treecompare._get_length_diffs(..., bipartition_length_diff_map=True)` as {split: (Fraction, Fraction)}, "E" when it refuses,
+    None when that private helper is not there or has another shape (then nothing is compared: it is not part of the statement)"""
+    import inspect
+    from dendropy.calculate import treecompare
+    fn = getattr(treecompare, "_get_length_diffs", None)
+    try:
+        if fn is None or "bipartition_length_diff_map" not in inspect.signature(fn).parameters:
+            return None
+    except (TypeError, ValueError):
+        return None
+    st, v = call(fn, clone(dendropy, t1), clone(dendropy, t2), bipartition_length_diff_map=True)
+    if st == "E":
+        return "E"
+    if not (isinstance(v, tuple) and len(v) == 2 and isinstance(v[1], dict)):
+        return None
+    out = {}
+    for bp, pair in v[1].items():
+        if not (isinstance(pair, tuple) and len(pair) == 2 and hasattr(bp, "split_bitmask")):
+            return None
+        out[bp.split_bitmask] = (Fraction(pair[0]), Fraction(pair[1]))
+    return out
+
+
+def root_in_bracket(x, s):
+    """the float the library returned lies in the model's fixed-point bracket [s, s+1] / 2^ROOT_BITS of the real square root,
+    up to a few binary64 roundings (relative 2^-44)"""
+    X = Fraction(x)
+    tol = abs(X) / (1 << 44)
+    return Fraction(s, 1 << ROOT_BITS) - tol <= X <= Fraction(s + 1, 1 << ROOT_BITS) + tol
+
+
 def check_refusal(ctx, m, t1, t2, case):
     """a refusal needs a missing length somewhere.  (Whether wRF and Euclid refuse the SAME pairs is not in the statement - it only
     asks each function to be symmetric in whether it is defined - so it is left to the model correspondence.)"""
@@ -381,6 +441,11 @@ def judge_pair(ctx, dendropy, t1, t2, case, pending, label="dist", extras=True, 
     if label in ("dist", "exh") and m["fpfn"] is not None and m["missing"] is not None:
         line = "dist %s %s %s %s" % (case["rooted"], case["rooted2"], " ".join(case["tree"]), " ".join(case["tree2"]))
         pending.append((line, case, m))
+        if case.get("diffs", True):
+            dm = length_diff_map(dendropy, t1, t2)
+            if dm is not None:
+                ctx.count("per_split_dictionaries_compared")
+                pending.append(("diffs" + line[4:], dict(case, fn="_get_length_diffs"), {"diffs": dm}))
     return m
 
 
@@ -408,6 +473,25 @@ def extra_surface(ctx, dendropy, t1, t2, m, case, extras=True):
         ("Tree.euclidean_distance", "euclid", 0, lambda a, b: a.euclidean_distance(b)),
         ("weighted_robinson_foulds_distance(edge_weight_attr='length')", "wrf", 0,
          lambda a, b: treecompare.weighted_robinson_foulds_distance(a, b, edge_weight_attr="length")),
+    ]
+    def moved(a, b):
+        """the weights live in another edge attribute; what is left in `length` is the complementary None pattern, so a function
+        that still read `length` would refuse or give another value.  The trees are encoded first: suppressing unifurcations and
+        opening a basal bifurcation add up `length`s only, so a custom weight is meaningful on the normalised drawing only"""
+        for t in (a, b):
+            t.encode_bipartitions()
+            for nd in tu.walk(t.seed_node):
+                nd.edge.c04_weight = nd.edge.length
+                nd.edge.length = None if nd.edge.length is not None else 1.0
+        return a, b
+    weighted += [
+        ("weighted_robinson_foulds_distance(edge_weight_attr=<another attribute>)", "wrf", 0,
+         lambda a, b: treecompare.weighted_robinson_foulds_distance(*moved(a, b), edge_weight_attr="c04_weight")),
+        ("euclidean_distance(edge_weight_attr=<another attribute>)", "euclid", 0,
+         lambda a, b: treecompare.euclidean_distance(*moved(a, b), edge_weight_attr="c04_weight")),
+        ("robinson_foulds_distance(edge_weight_attr=<another attribute>)", "wrf", 0,
+         lambda a, b: treecompare.robinson_foulds_distance(*moved(a, b), edge_weight_attr="c04_weight")),
+        ("euclidean_distance(value_type=Fraction)", "euclid", 0, lambda a, b: treecompare.euclidean_distance(a, b, value_type=Fraction)),
     ]
     variants = (3, 0, 1, 2) if extras is True else tuple(extras)
     for enc in variants:          # both encoded / neither ever encoded / one of them
@@ -481,6 +565,18 @@ def flush(ctx, pending):
             if not ok:
                 ctx.disagree("hist", case, str(want), o)
             continue
+        if "diffs" in m:
+            impl = m["diffs"]
+            if o == "E" or impl == "E":
+                model = o
+            else:
+                model = {}
+                for tok in o.split():
+                    k, a, b = tok.split(":")
+                    model[int(k)] = (Fraction(a), Fraction(b))
+            if model != impl:
+                ctx.disagree("diffs", case, str(impl if impl == "E" else sorted(impl.items())), o)
+            continue
         if "sdist" in m:
             name, impl = m["sdist"]
             if o == "refused" or impl == "refused":
@@ -501,7 +597,7 @@ def flush(ctx, pending):
             continue
         head, _, miss = o.partition("|")
         f = head.split()
-        ok = len(f) == 4 and f[0] == str(m["fpfn"][0]) and f[1] == str(m["fpfn"][1])
+        ok = len(f) == 5 and f[0] == str(m["fpfn"][0]) and f[1] == str(m["fpfn"][1])
         if ok:
             if (f[2] == "E") != (m["wrf"] == "E"):
                 ok = False
@@ -511,6 +607,8 @@ def flush(ctx, pending):
                 ok = False
             elif f[3] != "E" and not close(m["euclid"], math.sqrt(float(Fraction(f[3])))):
                 ok = False
+            elif f[3] != "E" and (f[4] == "E" or not root_in_bracket(m["euclid"], int(f[4]))):
+                ok = False          # the root itself: the library's float must lie in the model's bracket of the real square root
             if sorted(set(int(x) for x in miss.split())) != m["missing"]:
                 ok = False
         if not ok:
@@ -1070,7 +1168,7 @@ def run_op(ctx, dendropy, op, pending):
 def run(ctx):
     dendropy = __import__("dendropy")
     rng = ctx.rng
-    ctx.set_budget(35, 600)
+    ctx.set_budget(35, 420)
     pending = []
     names = [o[0] for o in OPS]
     weights = [o[1] for o in OPS]
@@ -1125,3 +1223,83 @@ def replay(ctx, rec):
     else:
         raise RuntimeError("harness: cannot replay op %r" % c.get("op"))
     flush(ctx, pending)
+
+
+# ------------------------------------------------------------------ targeted search (obligations broke / model and code disagree)
+def _unknown_failure(ctx, start):
+    """a failure recorded since `start` that is not the known basal-bifurcation finding"""
+    for f in ctx.failures[start:]:
+        if not (f["kind"] == "weighted-value" and f.get("replay", {}).get("basal_bifurcation_survives")):
+            return True
+    return False
+
+
+def search(ctx, broken):
+    """A kernel of treecompare.py could not be regenerated (Gen/C04Kernels: set differences, the dist_fn lambdas, the decision
+    tables of `_get_length_diffs`, the re-encoding protocol, the namespace check, the aliases), its bridge theorem no longer
+    holds, or model and code disagree: look for a concrete failing input where those kernels decide.
+    (1) small scope, exhaustively: every ordered pair of shapes with <= 3 leaves (then random pairs with 4 - 5), all three rooting
+        states, every placement of at most one missing length per tree (the seed's edge included) over distinct lengths, judged in
+        both orders with every entry point and every encoded / not-encoded combination of is_bipartitions_updated=True;
+    (2) histories (edit between calls: stale encodings), namespace refusals and redraws from the ordinary generators."""
+    import itertools
+    import time
+    dendropy = __import__("dendropy")
+    rng = ctx.rng
+    pending = []
+    start = len(ctx.failures)
+    deadline = time.time() + ctx.pick(45, 240)
+
+    def nodes_of(sh):
+        return 1 + sum(nodes_of(c) for c in sh)
+
+    def build(shape, tns, taxa, rooted, none_at, base):
+        vals = iter(range(10 ** 6))
+        t = tu.build_tree(dendropy, shape, tns, taxa, lambda: (lambda i: None if i == none_at else base + i / 4.0)(next(vals)), rooted)
+        return t
+
+    def one(s1, s2, taxa1, taxa2, tns, rooted, p1, p2):
+        t1 = build(s1, tns, taxa1, rooted, p1, 1.0)
+        t2 = build(s2, tns, taxa2, rooted, p2, 3.0)
+        judge(ctx, dendropy, case_of("dist", [t1, t2], extras=True), pending)
+        if len(pending) >= 300:
+            flush(ctx, pending)
+
+    done = False
+    for n in (3, 2, 1):
+        shapes = tu.all_shapes(n)
+        tns = tu.make_namespace(dendropy, n)
+        members = list(tns)
+        for rooted, s1, s2 in itertools.product((False, True, None), shapes, shapes):
+            for rot in range(2 if n > 1 else 1):
+                for p1 in range(-1, nodes_of(s1)):
+                    for p2 in range(-1, nodes_of(s2)):
+                        one(s1, s2, members, members[rot:] + members[:rot], tns, rooted, p1, p2)
+                if _unknown_failure(ctx, start) or time.time() > deadline:
+                    done = True
+                    break
+            if done:
+                break
+        if done:
+            break
+    flush(ctx, pending)
+    names = [o[0] for o in OPS]
+    weights = [o[1] for o in OPS]
+    while not _unknown_failure(ctx, start) and time.time() < deadline:
+        if rng.random() < 0.4:
+            n = rng.randint(4, 5)
+            shapes = tu.all_shapes(n)
+            tns = tu.make_namespace(dendropy, n)
+            members = list(tns)
+            s1, s2 = rng.choice(shapes), rng.choice(shapes)
+            taxa2 = list(members)
+            rng.shuffle(taxa2)
+            one(s1, s2, members, taxa2, tns, rng.choice([True, False, None]),
+                rng.randrange(-1, nodes_of(s1)), rng.randrange(-1, nodes_of(s2)))
+        else:
+            run_op(ctx, dendropy, rng.choices(names, weights)[0], pending)
+        if len(pending) >= 300:
+            flush(ctx, pending)
+    flush(ctx, pending)
+    ctx.extra["targeted_search"] = "ran (broken obligations: %d, disagreements: %d): %s" % (
+        len(broken), len(ctx.disagreements), "failing input found" if _unknown_failure(ctx, start) else "no failing input found")
